@@ -361,9 +361,9 @@ Definition crc_step (crc bitv : N) : N :=
   if negb (top =? 0) then N.lxor crc' 79764919 else crc'.
 Definition crc_byte (crc item : N) : N :=
   fold_left (fun c j => crc_step c (N.land (N.shiftr item (7 - j)) 1)) [0;1;2;3;4;5;6;7] crc.
-Definition crc_model (input : bytes) : bytes :=
+Definition crc_reg (input : bytes) : N :=
   let c := fold_left crc_byte input 1185899593 in
-  let c := fold_left (fun c _ => crc_step c 0) (repeat tt 32) c in
-  to_be32 c.
+  fold_left (fun c _ => crc_step c 0) (repeat tt 32) c.
+Definition crc_model (input : bytes) : bytes := to_be32 (crc_reg input).   (* binary.BigEndian.PutUint32 *)
 
 End Scte.
